@@ -609,17 +609,17 @@ int fcntl(int fd, int cmd, ...) {
   long val = va_arg(args, long);
   va_end(args);
 
-  if (!thread_locked) {
-    if (cmd == F_SETFL && (val == O_NONBLOCK || val == O_NDELAY) && fd_info &&
-        fd >= 0 && fd < max_fd) {
-      atomic_fetch_and(&fd_info[fd].flags_, ~IO_FLAG_BLOCKING);
-      assert(!(fd_info[fd].flags_ & IO_FLAG_BLOCKING));
-      return 0;
+  if (!thread_locked && cmd == F_SETFL) {
+    if (fd_info && fd >= 0 && fd < max_fd) {
+      // remember the mode the caller asked for...
+      if (val & O_NONBLOCK) {
+        atomic_fetch_and(&fd_info[fd].flags_, ~IO_FLAG_BLOCKING);
+      } else {
+        atomic_fetch_or(&fd_info[fd].flags_, IO_FLAG_BLOCKING);
+      }
     }
-    // make sure O_NONBLOCK stays set
-    if (cmd == F_SETFL) {
-      val |= O_NONBLOCK;
-    }
+    // ...and make sure O_NONBLOCK stays set underneath
+    val |= O_NONBLOCK;
   }
 
   if (!fibershim_fcntl) {
